@@ -51,7 +51,13 @@ Inductive case :=
      no view did), did the client get a reply, resolver invocations *)
 | CaseChainView (n_entries : N) (ps : list prefix) (views : list (list prefix * list vrec)) (r : remote) (path : N)
                 (qname : list N) (qtype : N) (cached : bool) (answered : option (nat * list nat)) (replied : bool)
-                (resolver_calls : N).
+                (resolver_calls : N)
+  (* the same chain (access list + views configured): ONE genuine sub-query through the queryer (via 0) / prefetch
+     queryer (via 1) autoWire injected into a handler of that chain; the name was / was not resolved before: which
+     view answered (None: no view did), did the sub-query get a response, resolver invocations *)
+| CaseSubChain (via n_entries : N) (ps : list prefix) (views : list (list prefix * list vrec))
+               (qname : list N) (qtype : N) (cached : bool) (answered : option (nat * list nat)) (replied : bool)
+               (resolver_calls : N).
 
 Definition all_ok (ps : list prefix) : bool := forallb prefix_ok ps.
 
@@ -218,6 +224,14 @@ Definition check_case (c : case) : bool :=
       | CView i l => replied && (calls =? 0) && opt_pick_eqb (Some (i, l)) answered
       | CResolve => replied && opt_pick_eqb None answered && (writer_internal r || (calls =? (if cached then 0 else 1)))
       end
+  | CaseSubChain via ne ps views qname qtype cached answered replied calls =>
+      all_ok ps && forallb (fun v => all_ok (fst v)) views &&
+      match subquery_walk handler_order via (new_set (acl_effective ne ps)) (map (fun v => (new_set (fst v), snd v)) views) qname qtype with
+      | CDrop => negb replied && (calls =? 0) && opt_pick_eqb None answered
+      | CView i l => replied && (calls =? 0) && opt_pick_eqb (Some (i, l)) answered
+        (* resolved: one resolution; the queryer's sub-pipeline keeps the cache, so a name resolved before may cost none *)
+      | CResolve => replied && opt_pick_eqb None answered && ((calls =? 1) || (cached && (via =? 0) && (calls =? 0)))
+      end
   end.
 
 Definition spec_case (c : case) : bool :=
@@ -272,4 +286,8 @@ Definition spec_case (c : case) : bool :=
            | Some p => replied && (calls =? 0) && opt_pick_eqb (Some p) answered
            | None => replied && opt_pick_eqb None answered && (calls =? (if cached then 0 else 1))
            end
+  | CaseSubChain via ne ps views qname qtype cached answered replied calls =>
+      (* a resolver-internal sub-query is never subjected to the access list or to views: whatever the list and the
+         views say it gets its response, and not from a view *)
+      replied && opt_pick_eqb None answered
   end.
